@@ -98,7 +98,7 @@ PLAN = {
         "C05": ["one_a", "one_c", "one_f", "one_g", "one_h", "one_i", "one_s", "pair_a"],
         "C06": ["one_c", "one_d", "one_f", "one_g", "one_j", "pair_a", "pair_b"],
         "C07": ["one_a", "one_b", "one_d", "one_s", "pair_a", "chain_b"],
-        "C08": ["pair_a", "pair_b", "chain_a", "chain_b", "fan_a"],
+        "C08": ["pair_a", "pair_b", "pair_r", "chain_a", "chain_b", "fan_a"],
         "C13": ["one_a", "one_c", "one_d", "one_g", "pair_a"],
         "C12": ["one_a", "one_c", "one_d", "dup_a", "pair_a"],
         "C10": ["dup_a", "dup_b", "succ_a", "pair_r", "one_a", "pair_a"],
@@ -108,6 +108,7 @@ PLAN = {
 }
 PLAN["thorough"]["C10"] = ["dup_a", "dup_b", "succ_a", "succ_b", "pair_r", "pair_rr", "one_a", "one_d", "pair_a", "pair_b", "chain_a"]
 PLAN["thorough"]["C04"] += ["pair_r", "pair_rr"]
+PLAN["thorough"]["C08"] += ["pair_r", "pair_rr"]
 PLAN["thorough"]["C12"].append("dup_a")
 _unused = {
 }
